@@ -4,6 +4,7 @@ import (
 	"fmt"
 
 	"fortio.org/log"
+	"grol.io/grol/token"
 )
 
 func ModifyNoOk(node Node, f func(Node) Node) Node {
@@ -50,6 +51,11 @@ func Modify(node Node, f func(Node) (Node, bool)) (Node, bool) { //nolint:funlen
 		newNode.Left, cont = Modify(node.Left, f)
 		if !cont {
 			return nil, false
+		}
+		if _, isKey := node.Index.(*Identifier); isKey && node.Type() == token.DOT {
+			// m.key: the identifier after the dot is a key name, not a variable reference.
+			newNode.Index = node.Index
+			return f(newNode)
 		}
 		newNode.Index, cont = Modify(node.Index, f)
 		if !cont {
